@@ -22,6 +22,28 @@ from .common import Check
 
 MUT = "__mutable_default__"
 TYPE_IDS = {"int": 0, "str": 1, "any": 2}
+# the names `Schema` itself keeps out of fields and additions (exclude_vars of the Schema parser: its own members)
+SCHEMA_EXCLUDED = ["__annotations__", "__class_getitem__", "__coerce_property__", "__contains__", "__delitem__", "__dict__",
+                   "__doc__", "__field_deleter__", "__field_getter__", "__field_setter__", "__from__", "__getitem__",
+                   "__init_subclass__", "__ior__", "__module__", "__name__", "__options__", "__parser__", "__parser_cls__",
+                   "__post_init__", "__repr__", "__setitem__", "__str__", "__validate__", "__weakref__", "clear", "copy",
+                   "pop", "popitem", "setdefault", "update"]
+
+
+def own_excluded(cd):
+    """names of a class body that are no fields: methods, `_private` attributes, ClassVar annotations"""
+    return list(cd.get("methods") or []) + list(cd.get("privates") or []) + list(cd.get("classvars") or [])
+
+
+def shares_mutable(a, b) -> bool:
+    """some list/dict inside `a` is the very object found inside `b` (a default handed out without a full copy)"""
+    def walk(x, acc):
+        if isinstance(x, (list, dict)):
+            acc.add(id(x))
+            for y in (x.values() if isinstance(x, dict) else x):
+                walk(y, acc)
+        return acc
+    return bool(walk(a, set()) & walk(b, set()))
 PREDS = {"falsy": 0, "none": 1}
 PRED_FN = {"falsy": lambda v: not v, "none": lambda v: v is None}
 OPT_DEFAULTS = {
@@ -109,14 +131,49 @@ def _options(od, addition_type=None, force_dfs=None):
         kw["data_first_search"] = od["data_first_search"]
     if force_dfs is not None:
         kw["data_first_search"] = force_dfs
+    if od.get("alias_generator"):
+        kw["alias_generator"] = GENS[od["alias_generator"]]
+    if od.get("alias_from_generator"):
+        kw["alias_from_generator"] = GENS_FROM[od["alias_from_generator"]]
     return Options(**kw)
 
 
-def classes_of(case):
-    """the declarations of the case in order, and which of them is parsed"""
-    if "classes" in case:
-        return case["classes"], case.get("target", 0)
-    return [case["cls"]], 0
+# Options(alias_generator=...) / Options(alias_from_generator=...): named functions, so that a declaration stays data
+GENS = {"upper": lambda s: s.upper(), "x_": lambda s: "x_" + s}
+GENS_FROM = {"cap": lambda s: s.capitalize(), "y_": lambda s: "y_" + s}
+GEN_KEYS = ("alias_generator", "alias_from_generator")
+
+
+def desugar(classes):
+    """alias generators written out: a field without `alias` gets the generated output name, a field without
+    `alias_from` the generated accepted key (field.md: the Field's own alias / alias_from override the generator) — of the
+    class that DECLARES the field (its own `__options__`, else the first base's).  The adapter builds the real classes
+    from the declarations as written (real callables in Options); the oracle and the model see the written-out form."""
+    out = []
+    for t, cd in enumerate(classes):
+        o, _ = eff_opts(classes, t)
+        g, gf = (o or {}).get("alias_generator"), (o or {}).get("alias_from_generator")
+        cd2 = dict(cd)
+        if g or gf:
+            fs = []
+            for fd in cd["fields"]:
+                fd2 = dict(fd)
+                if g and not fd.get("alias"):
+                    fd2["alias"] = GENS[g](fd["attname"])
+                if gf and not fd.get("alias_from"):
+                    fd2["alias_from"] = [GENS_FROM[gf](fd["attname"])]
+                fs.append(fd2)
+            cd2["fields"] = fs
+        if cd.get("opts"):
+            cd2["opts"] = {k: v for k, v in cd["opts"].items() if k not in GEN_KEYS}
+        out.append(cd2)
+    return out
+
+
+def classes_of(case, raw=False):
+    """the declarations of the case in order (alias generators written out unless `raw`), and which of them is parsed"""
+    cs = case["classes"] if "classes" in case else [case["cls"]]
+    return (cs if raw else desugar(cs)), (case.get("target", 0) if "classes" in case else 0)
 
 
 def eff_opts(classes, t):
@@ -136,17 +193,25 @@ def fkey(fd):
 
 
 def flatten(classes, t):
+    return _flatten(desugar(classes), t)
+
+
+def _flatten(classes, t):
     """the declaration a class amounts to: the fields of its bases (each case-insensitive or not as its declaring
     class says), minus the dropped names, with the fields of its own body replacing those of the same name"""
     cd = classes[t]
     o, at = eff_opts(classes, t)
     fields = {}
     ann = {}
+    excl = set(own_excluded(cd))
+    if not (cd.get("bases") or []):
+        excl.update(SCHEMA_EXCLUDED)
     for b in reversed(cd.get("bases") or []):
-        fb = flatten(classes, b)
+        fb = _flatten(classes, b)
         for fd in fb["fields"]:
             fields[fkey(fd)] = fd
         ann.update(fb["ann"])
+        excl.update(fb["excl"])
     for a in cd.get("drops") or []:
         fields.pop(a, None)
     own_ci = bool((o or {}).get("case_insensitive"))
@@ -177,7 +242,7 @@ def flatten(classes, t):
                     break
             deps.append(hit if hit is not None else d)
         fd2["deps"] = deps
-    return {"fields": list(fields.values()), "opts": o, "addition_type": at, "ann": ann}
+    return {"fields": list(fields.values()), "opts": o, "addition_type": at, "ann": ann, "excl": excl}
 
 
 def flat(case):
@@ -203,6 +268,16 @@ def _build(cd, bases=(), name="K"):
             defaults[fd["attname"]] = kw["default"]
     for a in cd.get("drops") or []:
         ns[a] = ...
+    for m in cd.get("methods") or []:
+        def meth(self):
+            return None
+        meth.__name__, meth.__qualname__ = m, f"{name}.{m}"
+        ns[m] = meth
+    for a in cd.get("privates") or []:
+        ns[a] = 1
+    for a in cd.get("classvars") or []:
+        from typing import ClassVar
+        ns["__annotations__"][a] = ClassVar[int]
     if "opts" not in cd or cd["opts"] is not None:
         ns["__options__"] = _options(cd.get("opts") or {}, cd.get("addition_type"))
     return type(name, tuple(bases) or (Schema,), ns), defaults
@@ -241,20 +316,24 @@ def _err(e):
     return [k, getattr(e, "item", None)]
 
 
-def _run(classes, target, built, runtime, data, force_dfs=None):
-    """parse with class number `target` (all classes of the case are declared by now)"""
+def _run(classes, target, built, runtime, data, force_dfs=None, all_errors=False):
+    """parse with class number `target` (all classes of the case are declared by now); `all_errors`: the same options
+    but collecting without a cap (every violation the strategy's loop handles)"""
     from utype.utils import exceptions as exc
     cls, defaults, err = built[target]
     if cls is None:
         return {"config_error": err}, None
     cd = flatten(classes, target)
     if runtime is not None:
-        opts = _options(runtime, None, force_dfs)
-    elif force_dfs is not None:
+        od, at = runtime, None
+    elif force_dfs is not None or all_errors:
         # runtime options replace the class's wholesale: the class's own, with the strategy forced
-        opts = _options(cd["opts"] or {}, cd.get("addition_type"), force_dfs)
+        od, at = cd["opts"] or {}, cd.get("addition_type")
     else:
-        opts = None
+        od, at = None, None
+    if od is not None and all_errors:
+        od = dict(od, collect_errors=True, max_errors=None)
+    opts = _options(od, at, force_dfs) if od is not None else None
     try:
         inst = cls.__from__(dict((k, copy.deepcopy(v)) for k, v in data), options=opts)
     except exc.CollectedParseError as e:
@@ -272,7 +351,7 @@ def _run(classes, target, built, runtime, data, force_dfs=None):
         try:
             val = getattr(inst, a)
             ga[a] = vtext(val)
-            if a in defaults and isinstance(val, (list, dict)) and val is defaults[a]:
+            if a in defaults and shares_mutable(val, defaults[a]):
                 fresh = False
         except AttributeError:
             ga[a] = None
@@ -287,7 +366,7 @@ def _run(classes, target, built, runtime, data, force_dfs=None):
     return {"ok": {"mapping": mapping, "attrs": attrs, "getattr": ga, "fresh": fresh, "contains": contains}}, cls
 
 
-def _run_func(cd, data, force_dfs):
+def _run_func(cd, data, force_dfs, all_errors=False):
     """a keyword-only function with the same parameters (C06: functions reach the same two loops)"""
     import warnings
     import utype
@@ -305,7 +384,10 @@ def _run_func(cd, data, force_dfs):
         body = ", ".join(f"{a}={a}" for a in atts)
         src = f"def f(*, {', '.join(params)}{kw}):\n    return dict({body}{', **kw' if kw else ''})\n"
         exec(src, ns)
-        fn = utype.parse(ns["f"], options=_options(cd.get("opts", {}), cd.get("addition_type"), force_dfs))
+        od = cd.get("opts", {})
+        if all_errors:
+            od = dict(od, collect_errors=True, max_errors=None)
+        fn = utype.parse(ns["f"], options=_options(od, cd.get("addition_type"), force_dfs))
     except (exc.ConfigError, SyntaxError) as e:
         return {"config_error": type(e).__name__}
     except Exception as e:
@@ -322,6 +404,11 @@ def _run_func(cd, data, force_dfs):
     return {"ok": {"mapping": m, "attrs": m, "getattr": {}}}
 
 
+def partial_report(df, ff) -> bool:
+    """both strategies failed and neither need have reported everything (fail-fast, or collected under a cap)"""
+    return all("raised" in o or "collected" in o for o in (df, ff))
+
+
 def impl(case):
     """as declared + once per strategy, on the real code; plus the leaf-converter tables"""
     from utype import type_transform
@@ -333,8 +420,11 @@ def impl(case):
         if "config_error" not in out:
             res["df"] = _run_func(cd, data, True)
             res["ff"] = _run_func(cd, data, False)
+            if partial_report(res["df"], res["ff"]):
+                res["df_all"] = _run_func(cd, data, True, all_errors=True)
+                res["ff_all"] = _run_func(cd, data, False, all_errors=True)
         return res
-    classes, target = classes_of(case)
+    classes, target = classes_of(case, raw=True)
     built = _build_all(classes)
     out, cls = _run(classes, target, built, runtime, data)
     res = {"out": out, "declared": [b[2] for b in built]}
@@ -342,6 +432,10 @@ def impl(case):
         return res
     res["df"], _ = _run(classes, target, built, runtime, data, True)
     res["ff"], _ = _run(classes, target, built, runtime, data, False)
+    if partial_report(res["df"], res["ff"]):
+        # every violation each strategy handles (C06: classifying a difference in WHICH error is reported first)
+        res["df_all"], _ = _run(classes, target, built, runtime, data, True, all_errors=True)
+        res["ff_all"], _ = _run(classes, target, built, runtime, data, False, all_errors=True)
     cd = flatten(classes, target)
     # leaf conversions in isolation (World.fp / World.addConv), per declared type - not per field of the real parser
     values = {vtext(v): v for _, v in data}
@@ -363,6 +457,7 @@ def impl(case):
         ty = f.type
         types[f.attname] = "none" if ty is None else ("any" if ty is Any else getattr(ty, "__name__", repr(ty)))
     res["types"] = types
+    res["exclude_vars"] = sorted(cls.__parser__.exclude_vars)
     at = cd.get("addition_type")
     if at:
         tab = {}
@@ -422,7 +517,8 @@ def flag_on(fl, v, omode, fmode, static=False):
         own = (not static) and bool(PRED_FN[fl["pred"]](v))
     elif isinstance(fl, str):
         own = omode is not None and omode in fl
-    return own or (omode is not None and fmode is not None and omode not in fmode)
+    # `mode='rw'` lists the supported modes; no mode - or an empty one - supports all
+    return own or (omode is not None and bool(fmode) and omode not in fmode)
 
 
 def contract(case, fpt, addconv):
@@ -518,10 +614,11 @@ def contract(case, fpt, addconv):
     for k, v in data:
         if any(nk(f, k) in f["acc"] for f in fields):
             continue
-        if o["addition"] is None:
-            continue
         if o["addition"] is False:
             errs.append(("ExceedError", k))
+            continue
+        if o["addition"] is None or k in cd["excl"]:
+            # dropped; the names the class keeps for itself (methods, _private, ClassVar) are never kept
             continue
         val = vtext(v)
         if typed:
@@ -607,6 +704,7 @@ def key_table(case):
             ks.update(fd.get("alias_from") or [])
             ks.update(fd.get("deps") or [])
         ks.update(cd.get("drops") or [])
+        ks.update(own_excluded(cd))
     ks.update(k for k, _ in case["data"])
     for k in list(ks):
         ks.add(k.lower())
@@ -661,7 +759,8 @@ def model_class(cd, ix):
     od = cd.get("opts") or {}
     return {"fields": fields, "opts": model_opts(od) if own else None,
             "addition_typed": bool(cd.get("addition_type")) and od.get("addition") is True,
-            "bases": list(cd.get("bases") or []), "drops": [ix[a] for a in cd.get("drops") or []]}
+            "bases": list(cd.get("bases") or []), "drops": [ix[a] for a in cd.get("drops") or []],
+            "excluded": [ix[a] for a in own_excluded(cd)]}
 
 
 def model_line(case, io, legacy=None):
@@ -702,6 +801,7 @@ def model_line(case, io, legacy=None):
         "lower": [ix[k.lower()] for k in keys], "islower": [k.islower() for k in keys],
         "fp": fp, "pred": pred, "addconv": [[t, x] for t, x in sorted((io.get("addconv") or {}).items())],
         "classes": [model_class(c, ix) for c in classes], "target": target,
+        "schema_excluded": [ix[k] for k in SCHEMA_EXCLUDED if k in ix],
         "runtime": model_opts(case.get("runtime")),
         "data": [[ix[k], vtext(v)] for k, v in case["data"]],
         "legacy": legacy or {},
@@ -793,14 +893,14 @@ def gen_field(rng: random.Random, i: int, n: int, rich: float = 1.0):
         fd["required"] = rng.choice([None, None, None, True, False, False, "r", "w", "rw", "a"])
         dk = rng.choice(["none", "none", "value", "value", "factory"])
         if dk != "none":
-            v = rng.choice([5, "5", 0, "d", [1], None if False else 6])
+            v = rng.choice([5, "5", 0, "d", [1], 6, [[1]], {"k": [1]}])
             fd["default"] = {"v": v, "factory": dk == "factory"}
         else:
             fd["default"] = None
         fd["defer"] = p() < 0.15
         fd["no_input"] = rng.choice([False] * 6 + [True, "r", "w", "a", "ra", {"pred": "falsy"}])
         fd["no_output"] = rng.choice([False] * 6 + [True, "r", "w", "a", "wa", {"pred": "falsy"}, {"pred": "none"}])
-        m = rng.choice([None] * 5 + ["r", "w", "rw", "ra", "wa"])
+        m = rng.choice([None] * 5 + ["r", "w", "rw", "ra", "wa"] + ([""] if p() < 0.5 else []))
         fd["mode"] = m
         if m == "r" and p() < 0.4:
             fd["mode_kw"] = "readonly"
@@ -850,6 +950,10 @@ def gen_opts(rng: random.Random, runtime: bool):
         o["data_first_search"] = rng.choice([True, True, False, None])
     if not runtime and p() < 0.2:
         o["case_insensitive"] = True
+    if not runtime and p() < 0.06:
+        o["alias_generator"] = rng.choice(sorted(GENS))
+    if not runtime and p() < 0.05:
+        o["alias_from_generator"] = rng.choice(sorted(GENS_FROM))
     return o
 
 
@@ -892,6 +996,10 @@ def gen_data(rng: random.Random, cd, copts):
     for _ in range(rng.choice([0, 0, 1, 1, 2])):
         k = rng.choice(["zz", "Q", "extra", "A", "b1", "ZZ", "a"])
         data.append([k, rng.choice([1, "1", "x", None])])
+    if rng.random() < 0.12:
+        # a name the class keeps for itself, given as an input key
+        k = rng.choice(sorted(cd.get("excl") or []) if cd.get("excl") and rng.random() < 0.7 else ["update", "__options__", "_zz"])
+        data.append([k, rng.choice([1, "x"])])
     rng.shuffle(data)
     seen, out = set(), []
     for k, v in data:
@@ -899,6 +1007,16 @@ def gen_data(rng: random.Random, cd, copts):
             seen.add(k)
             out.append([k, v])
     return out
+
+
+def add_own_names(rng, cd, pool=("meth", "_q", "cv")):
+    """now and then the class body also has a method, a private attribute or a ClassVar (no fields: exclude_vars)"""
+    if rng.random() < 0.2:
+        cd["methods"] = [pool[0]]
+    if rng.random() < 0.12:
+        cd["privates"] = [pool[1]]
+    if rng.random() < 0.08:
+        cd["classvars"] = [pool[2]]
 
 
 def gen_case(rng: random.Random, maxfields=4):
@@ -923,8 +1041,9 @@ def gen_case(rng: random.Random, maxfields=4):
     cd = {"fields": fields, "opts": copts}
     if copts.get("addition") is True and rng.random() < 0.5:
         cd["addition_type"] = rng.choice(["int", "str"])
+    add_own_names(rng, cd)
     runtime = gen_opts(rng, True) if rng.random() < 0.5 else None
-    return {"cls": cd, "runtime": runtime, "data": gen_data(rng, cd, copts)}
+    return {"cls": cd, "runtime": runtime, "data": gen_data(rng, flatten([cd], 0), copts)}
 
 
 def gen_hier_case(rng: random.Random):
@@ -940,6 +1059,7 @@ def gen_hier_case(rng: random.Random):
             fd["ci"] = None
     bopts = gen_opts(rng, False)
     classes = [{"fields": base_fields, "opts": bopts}]
+    add_own_names(rng, classes[0])
     if bopts.get("addition") is True and rng.random() < 0.4:
         classes[0]["addition_type"] = rng.choice(["int", "str"])
     used = n0
@@ -1002,12 +1122,35 @@ def gen_hier_case(rng: random.Random):
             if len(allf) > 1 and rng.random() < 0.25 and not fd.get("bare"):
                 t = rng.choice([f for f in allf if f["attname"] != fd["attname"]] or allf)
                 fd["deps"] = [rng.choice([t["attname"], t.get("alias") or t["attname"]] + list(t.get("alias_from") or []))]
+        add_own_names(rng, cd, (f"meth{j}", f"_q{j}", f"cv{j}"))
         classes.append(cd)
     for i, fd in enumerate(base_fields):
         if n0 > 1 and rng.random() < 0.25:
             t = base_fields[rng.choice([x for x in range(n0) if x != i])]
             fd["deps"] = [rng.choice([t["attname"], t.get("alias") or t["attname"]] + list(t["alias_from"]))]
     target = 0 if rng.random() < 0.45 else rng.randrange(len(classes))
+    if n0 > 1 and rng.random() < 0.12:
+        # a subclass under which a dependency of the BASE resolves to another field: the name the base field depends on
+        # is dropped and becomes an accepted key of a new field, or is re-declared under another output name (which the
+        # code refuses - after it has been through the fields taken over).  The base must stay what it was.
+        i = rng.randrange(n0)
+        t = base_fields[rng.choice([x for x in range(n0) if x != i])]
+        base_fields[i]["deps"] = [t["attname"]]
+        sub = classes[1]
+        sub["fields"] = [f for f in sub["fields"] if f["attname"] != t["attname"]]
+        if fkey(dict(t, ci=t.get("ci") if t.get("ci") is not None else bool((bopts or {}).get("case_insensitive")))) == t["attname"] \
+                and rng.random() < 0.6:
+            sub["drops"] = [t["attname"]]
+            new = gen_field(rng, 3, 4)
+            new["attname"], new["alias"], new["alias_from"], new["deps"] = "q", None, [t["attname"]], []
+            if field_ok(new):
+                sub["fields"].append(new)
+        else:
+            new = dict(t, alias=rng.choice(["A", "zz", "Q"]), deps=[])
+            sub.pop("drops", None)
+            sub["fields"].append(new)
+        if rng.random() < 0.75:
+            target = 0
     cdt = flatten(classes, target)
     runtime = gen_opts(rng, True) if rng.random() < 0.4 else None
     return {"classes": classes, "target": target, "runtime": runtime, "data": gen_data(rng, cdt, cdt["opts"] or {})}
@@ -1155,6 +1298,10 @@ class C05(Check):
         norm = lambda d: {k: ("none" if v in ("any", "Rule") else v) for k, v in d.items()}
         if norm(want_t) != norm(io.get("types") or {}):
             return f"field types: implementation {io.get('types')} vs model {want_t}"
+        want_x = sorted({keys[i] for i in mo.get("exclude_vars", [])})
+        got_x = sorted(k for k in (io.get("exclude_vars") or []) if k in set(keys))
+        if want_x != got_x:
+            return f"exclude_vars (on the keys of the case): implementation {got_x} vs model {want_x}"
         for k in keys:           # the theorems' hypothesis LowerLaws, on the keys of this case
             if k.lower().lower() != k.lower() or (k.islower() and k.lower() != k):
                 return f"LowerLaws does not hold for key {k!r}"
